@@ -338,6 +338,25 @@ def _account_total(c, method, figname, dname, accname, loopid):
     c.ob('master-entry-is-sum-of-per-portfolio-figures', EQ(VAL(d, 'master'), W.sum_over_portfolios(fig, pre)), props=['C01'])
     c.ob('per-portfolio-entry-is-its-figure', IMPLIES(W.exists(w, pre), AND(HAS(d, w), EQ(VAL(d, w), fig(w, pre)))), props=['C01'])
     c.ob('getter-changes-nothing', W.all_same(pre), props=['C01', 'C15'])
+    if c.mode == 'conc':
+        _single_portfolio_named_master(c, method, figname)
+
+
+def _single_portfolio_named_master(c, method, figname):
+    """(native only) ONE portfolio whose id is literally 'master' - the key the totals dictionary reserves for the sum: with a
+       single portfolio the two meanings coincide, so the entry must be that portfolio's figure (not twice it)"""
+    import pandas as pd
+    from qstrader.broker.simulated_broker import SimulatedBroker
+    from qstrader.broker.fee_model.zero_fee_model import ZeroFeeModel
+    from qstrader.broker.transaction.transaction import Transaction
+    t0 = pd.Timestamp('2020-01-06 14:30:00', tz='UTC')
+    b = SimulatedBroker(t0, None, None, initial_funds=1000000.0, fee_model=ZeroFeeModel())
+    b.create_portfolio('master', 'the only portfolio')
+    b.subscribe_funds_to_portfolio('master', 600000.0)
+    b.portfolios['master'].transact_asset(Transaction('EQ:aaa', 1000, t0, 101.5, 'oid', commission=0.0))
+    want = {'tmv': 101500.0, 'equity': 600000.0}[figname]
+    got = getattr(b, method)()
+    c.ob('single-portfolio-named-master/entry-is-that-portfolio-figure', set(got) == {'master'} and EQ(got['master'], want), props=['C01', 'C02'])
 
 
 @harness('SimulatedBroker.get_account_total_equity', props=['C01', 'C02', 'C14'], layer='L2', functions=BR_FUNCS)
@@ -495,6 +514,31 @@ def br_execute(c):
          AND(W.all_same(pre, ('master', 'portfolios', 'pending')), W.portfolio_same(w, pre)), props=['C01', 'C04'])
 
 
+@harness('SimulatedBroker._execute_order(stale clock)', props=['C15'], layer='L2', functions=BR_FUNCS)
+def br_execute_stale(c):
+    """an execution while the broker clock is EARLIER than the portfolio's clock is refused (ValueError, by the portfolio)
+       and leaves cash, holdings, queues and histories as they were - it is never stamped with some later time and accepted"""
+    pid, a = c.key('pid'), c.key('a')
+    W, b = world(c, [pid], [a])
+    dt = c.time('dt')
+    now = b.current_dt
+    c.assume(B_(W.exists(pid)))
+    order = _an_order(c, W, 'the_order', [a])
+    bid, ask = _quote(c, W, dt, order.asset)
+    if c.mode == 'sym':
+        t, x = lift(dt), liftk(order.asset)
+        c.assume(z3.And(z3.Not(BIDNAN(t, x)), z3.Not(ASKNAN(t, x))))
+    c.assume(AND(GT(bid, 0), GT(ask, 0)))
+    c.assume(LT(now, W.clock_(pid)))
+    pre = W.snapshot()
+    r, _ = outcome(lambda: b._execute_order(dt, pid, order))
+    c.ob('stale-execution-refused/type-ValueError', r == 'ValueError')
+    if r != 'ok':
+        refusal_clauses(c, W, pre)
+
+
+canary('fill stamped with the later of the two clocks', SimulatedBroker, '_execute_order',
+       'order.asset, scaled_quantity, self.current_dt,', 'order.asset, scaled_quantity, max(self.current_dt, self.portfolios[portfolio_id].current_dt),')(br_execute_stale)
 canary('bid and ask swapped', SimulatedBroker, '_execute_order', 'price = bid_ask[1]\n', 'price = bid_ask[0]\n')(br_execute)
 canary('commission on unrounded consideration', SimulatedBroker, '_execute_order',
        'consideration = round(price * order.quantity)', 'consideration = price * order.quantity')(br_execute)
